@@ -109,7 +109,7 @@ def one_case(rng, restart_p=0.15, maxsched=110):
 
 def gen_cases(rng, tier):
     n = 70 if tier == "quick" else 2500
-    return [one_case(rng) for _ in range(n)] + directed_cases(rng, 8 if tier == "quick" else 400)
+    return [one_case(rng) for _ in range(n)] + directed_cases(rng, 8 if tier == "quick" else 400) + template_cases()
 
 
 def search_cases(rng, tier):
@@ -219,6 +219,25 @@ def directed_cases(rng, n):
         kind, ms = rng.choice(kinds)
         cases.append(mk(kind, rng.choice(ms), rng.choice([-1, 0, 0, 1]), rng.choice([0, 2, 6]), rng.choice([0, 1, 2]),
                         rng.choice([0, 3, 6]), rng.choice([0, 2, 4])))
+    return cases
+
+
+def template_cases():
+    """systematic release/reclaim race template (oracle-only, macro steps): worker 1 is stopped at every point q of
+    its turn (take, CAS, handler, nil dequeue, reset, emptiness check, TrySchedule, re-take, yield), optionally a
+    sender B completes there, worker 1 advances r more points, a sender C completes, worker 2 runs up to its
+    handler, worker 1 continues, a last sender D completes; everything then runs to completion. The oracle looks
+    for overlapping handlers, lost wake-ups, lost or duplicated messages."""
+    cases = []
+    for budget in (1, 3):
+        for q in range(0, 8):
+            for use_b in (0, 1):
+                for r in range(0, 4):
+                    for s_ in (1, 3):
+                        progs = ["t1", "p t2" if use_b else "p", "p t3", "w0 w0 w0", "w1 w1 w1", "p t4"]
+                        sched = ["0*"] * 4 + ["3*"] * q + (["1*"] * 4 if use_b else []) + ["3*"] * r + ["2*"] * 4 \
+                            + ["4*"] * 3 + ["3*"] * s_ + ["5*"] * 4
+                        cases.append(f"2 {budget} unbounded | " + " ; ".join(progs) + " | " + " ".join(sched))
     return cases
 
 
